@@ -15,8 +15,8 @@ demo() {
     # demo scripts take the worktree, the build directory or the xz binary as their argument: use the first form
     # that works on HEAD for the patched run too
     if [ -z "$DEMOARG" ]; then
-      for a in "$R" "$R/_b" "$R/_b/xz"; do
-        (cd "$W" && WORKTREE="$R" BUILD="$R/_b" timeout 900 sh "$D/demo.sh" "$a" >"$W/demo.out" 2>&1); rc=$?
+      for a in "$R/_b" "$R" "$R/_b/xz"; do
+        (cd "$W" && WORKTREE="$R" BUILD="$R/_b" timeout 300 sh "$D/demo.sh" "$a" >"$W/demo.out" 2>&1); rc=$?
         if [ $rc = 0 ]; then DEMOARG=$a; break; fi
       done
     else
